@@ -605,7 +605,7 @@ func runC07(c *Ctx) {
 	runC07own(c)
 	c.alsoUnder(map[string]string{"R13.1": "R07.14"}, func(construct string) bool { return strings.Contains(construct, "json.") || strings.HasPrefix(construct, "floor/") }, func() { c.r131() })
 	// JSON numbers are rewritten by minify.Number: its value-level shape rules are necessary for `numerically equal`
-	c.alsoUnder(map[string]string{"R08.3": "R07.4", "R08.4": "R07.5", "R08.5": "R07.6", "R08.6": "R07.7", "R08.7": "R07.8", "R08.8": "R07.9", "R08.9": "R07.10", "R08.10": "R07.13"}, func(construct string) bool {
+	c.alsoUnder(map[string]string{"R08.3": "R07.4", "R08.4": "R07.5", "R08.5": "R07.6", "R08.6": "R07.7", "R08.7": "R07.8", "R08.8": "R07.9", "R08.9": "R07.10", "R08.10": "R07.13", "R08.14": "R07.15"}, func(construct string) bool {
 		return strings.Contains(construct, "minify.Number") || strings.HasPrefix(construct, "floor/")
 	}, func() { runC08(c) })
 }
